@@ -581,7 +581,14 @@ class EndToEnd:
                     return False
         # driver errors arrive as the same SECoP class
         name, spec = specs[0]
-        for exc in (HardwareError('hw broken'), RangeError('too far')):
+        import frappy.errors as FE
+        driver_errors = [HardwareError('hw broken'), RangeError('too far')]
+        # every error class a driver may raise (errors of the protocol layer itself are not a driver's business)
+        for cn in ('TimeoutSECoPError', 'CommunicationFailedError', 'IsBusyError', 'IsErrorError', 'DisabledError', 'ImpossibleError',
+                   'NotImplementedSECoPError', 'ReadFailedError', 'OutOfRangeError', 'CommandFailedError', 'BadValueError', 'WrongTypeError'):
+            if hasattr(FE, cn) and rng.random() < 0.35:
+                driver_errors.append(getattr(FE, cn)('driver says no'))
+        for exc in driver_errors:
             mod.fail.append(exc)
             try:
                 client.setParameter(modname, name, client.cache[modname, name].value)
@@ -589,8 +596,8 @@ class EndToEnd:
                 return False
             except self.SECoPError as e:
                 r.count(f'e2e_{"proxy_" if via == "proxy" else ""}driver_errors')
-                if type(e).__name__ != type(exc).__name__:
-                    r.violation(f'C12/e2e/{via}/driver-error-class-changed', f'{type(exc).__name__} arrived as {type(e).__name__}', case)
+                if getattr(e, 'name', None) != exc.name:
+                    r.violation(f'C12/e2e/{via}/driver-error-class-changed/{type(exc).__name__}', f'{type(exc).__name__} ({exc.name}) arrived as {type(e).__name__} ({getattr(e, "name", None)})', case)
                     return False
             finally:
                 del mod.fail[:]
